@@ -266,7 +266,7 @@ func (x *Exec) callStatic0(fr *Frame, st *State, fn *ssa.Function, args, bind []
 				recursive = true
 			}
 		}
-		useContract := c != nil && !c.Inline && (len(c.Ensures) > 0 || len(c.Requires) > 0 || c.HasAssigns) && (c.Opaque || recursive || x.useContracts)
+		useContract := c != nil && !c.Inline && (len(c.Ensures) > 0 || len(c.Requires) > 0 || c.HasAssigns || c.Trusted) && (c.Opaque || recursive || x.useContracts)
 		if useContract {
 			return x.applyContract(fr, st, c, fn, args, resT, pos, funcDisplayName(fn))
 		}
